@@ -38,6 +38,11 @@ def src_for(rot, numeric=True):
         # summaries are about the values, not about the order they are displayed in
         return ('<dtml-in seq%s sort="x/' + ('cf' if (numeric or rot % 8 == 1) else 'nocase') + '"><dtml-if sequence-end>' +
                 '|'.join('%s=<dtml-var %s-x>' % (s, s) for s in order) + '</dtml-if></dtml-in>')
+    if rot % 5 == 3:
+        # shown in reverse (alone, with a sort, decided by an expression): the summaries are about the same values
+        how = (' reverse', ' sort=x reverse', ' reverse_expr="1"')[(rot // 5) % 3]
+        return ('<dtml-in seq%s' + how + '><dtml-if sequence-end>' + '|'.join('%s=<dtml-var %s-x>' % (s, s) for s in order) +
+                '</dtml-if></dtml-in>')
     return ('<dtml-in seq%s><dtml-if sequence-end>' + '|'.join('%s=<dtml-var %s-x>' % (s, s) for s in order) +
             '</dtml-if></dtml-in>')
 REAL = [('int', 1, 0), ('float', 1.0, 0.0), ('quarter', 0.25, 0.0), ('fine', 2.0 ** -15, 0.5),
